@@ -52,6 +52,19 @@ def check_tree(seed, use_git):
     d = tempfile.mkdtemp(prefix="c15_")
     try:
         allfiles = make_tree(d, rnd)
+        # always: a file with a non-ASCII name, and a directory reached through a symbolic link
+        # (found recursively like any other directory)
+        os.makedirs(os.path.join(d, "real lib"), exist_ok=True)
+        os.makedirs(os.path.join(d, "proj"), exist_ok=True)
+        for e in ("real lib/ft_len.c", "real lib/lib.h", "proj/main.c", "proj/liste_cha\u00een\u00e9e.c"):
+            if not os.path.exists(os.path.join(d, e)):
+                with open(os.path.join(d, e), "w") as fh:
+                    fh.write(content("clean", os.path.basename(e)))
+                allfiles.append(os.path.join(d, e))
+        # (not in git trees: `git check-ignore` refuses paths beyond a symbolic link and the run is
+        # abandoned with status 0 -- known finding K10, witnessed separately)
+        if not use_git and not os.path.lexists(os.path.join(d, "proj", "lnk")):
+            os.symlink(os.path.join("..", "real lib"), os.path.join(d, "proj", "lnk"))
         rel = [os.path.relpath(p, d) for p in allfiles]
         dirs = sorted({os.path.dirname(r) for r in rel if os.path.dirname(r)})
         ignored = set()
@@ -61,7 +74,7 @@ def check_tree(seed, use_git):
             # always: an ignored directory whose name and files contain spaces, and a kept file whose
             # name is a fragment of an ignored path
             os.makedirs(os.path.join(d, "ig dir"), exist_ok=True)
-            extra = ["ig dir/gen out.c", "ig dir/gen.c", "out.c", "gen.c"]
+            extra = ["ig dir/gen out.c", "ig dir/gen.c", "out.c", "gen.c", "proj/x_g\u00e9n\u00e9r\u00e9.c"]
             for e in extra:
                 if not os.path.exists(os.path.join(d, e)):
                     with open(os.path.join(d, e), "w") as fh:
@@ -73,7 +86,8 @@ def check_tree(seed, use_git):
                 for p in pats:
                     fh.write("/" + p + "\n")
                 fh.write("/ig dir/\n")
-            ignored = set(pats) | {"ig dir/gen out.c", "ig dir/gen.c"}
+                fh.write("*_g\u00e9n\u00e9r\u00e9.c\n")
+            ignored = set(pats) | {"ig dir/gen out.c", "ig dir/gen.c", "proj/x_g\u00e9n\u00e9r\u00e9.c"}
         # argument lists: files, directories, both, none, with a missing path
         arglists = [[], ["."]]
         if rel:
@@ -83,6 +97,7 @@ def check_tree(seed, use_git):
             arglists.append([rnd.choice(dirs)])
             arglists.append([rnd.choice(dirs)] + (rel[:1]))
         arglists.append((rel[:1]) + ["no_such_path.c"])
+        arglists.append(["proj"])
         problems = []
         for args in arglists:
             cli = (["--use-gitignore"] if use_git else []) + args
@@ -107,7 +122,7 @@ def check_tree(seed, use_git):
                     else:
                         rejected.append(os.path.basename(p))
                 else:
-                    for dp, dn, fn in os.walk(p):
+                    for dp, dn, fn in os.walk(p, followlinks=True):
                         dn[:] = [x for x in dn if not x.startswith(".")]
                         for f in fn:
                             full = os.path.join(dp, f)
@@ -130,8 +145,65 @@ def check_tree(seed, use_git):
         shutil.rmtree(d, ignore_errors=True)
 
 
+def dotdot_scenario():
+    """two different files whose relative paths differ only by leading ./ and ../ characters, in
+    one invocation: both are checked, each on its own content (the second one lacks its header)"""
+    viol = []
+    d = tempfile.mkdtemp(prefix="c15d_")
+    try:
+        os.makedirs(os.path.join(d, "libft", "src"))
+        os.makedirs(os.path.join(d, "src"))
+        with open(os.path.join(d, "libft", "src", "ft_util.c"), "w") as fh:
+            fh.write(content("clean", "ft_util.c"))
+        with open(os.path.join(d, "src", "ft_util.c"), "w") as fh:
+            fh.write("int\tft_other(void)\n{\n\treturn (1);\n}\n")      # no 42 header
+        for args in (["src/ft_util.c", "../src/ft_util.c"], ["./src/ft_util.c", "../src/ft_util.c"], ["../src/ft_util.c", "src/ft_util.c"]):
+            rc, out, err = run_cli(["-f", "json"] + args, os.path.join(d, "libft"))
+            try:
+                data = json.loads(out[out.index('{"files"'):])
+            except Exception:
+                viol.append(f"arguments {args}: no JSON report")
+                continue
+            paths = [f["path"] for f in data["files"]]
+            if len(paths) != 2:
+                viol.append(f"arguments {args}: {len(paths)} files reported ({[os.path.relpath(p, d) for p in paths]}), 2 mentioned")
+                continue
+            for f in data["files"]:
+                n = sum(1 for e in f["errors"] if e["name"] == "INVALID_HEADER")
+                headerless = os.path.relpath(f["path"], d) == os.path.join("src", "ft_util.c")
+                if n != (1 if headerless else 0):
+                    viol.append(f"arguments {args}: {os.path.relpath(f['path'], d)} gets INVALID_HEADER {n} time(s)")
+    finally:
+        shutil.rmtree(d, ignore_errors=True)
+    return {"cases": 3, "violations": viol}
+
+
+def k10_witness():
+    """--use-gitignore with a directory reached through a symbolic link"""
+    d = tempfile.mkdtemp(prefix="c15k_")
+    try:
+        subprocess.run(["git", "init", "-q", d], capture_output=True)
+        os.makedirs(os.path.join(d, "real lib"))
+        os.makedirs(os.path.join(d, "proj"))
+        for e in ("real lib/ft_len.c", "proj/main.c"):
+            with open(os.path.join(d, e), "w") as fh:
+                fh.write(content("clean", os.path.basename(e)))
+        os.symlink(os.path.join("..", "real lib"), os.path.join(d, "proj", "lnk"))
+        rc, out, err = run_cli(["--use-gitignore", "proj"], d)
+        got = sorted(verdicts(out))
+        return {"still_fails": got != ["ft_len.c", "main.c"], "checked": got, "rc": rc, "out": out[-200:]}
+    finally:
+        shutil.rmtree(d, ignore_errors=True)
+
+
 def main():
     task = json.load(sys.stdin)
+    if task["op"] == "dotdot":
+        json.dump(dotdot_scenario(), sys.stdout)
+        return
+    if task["op"] == "k10":
+        json.dump(k10_witness(), sys.stdout)
+        return
     if task["op"] == "one":
         pr = check_tree(task["seed"], task["use_git"])
         json.dump({"violations": [f"{a}: {m}" for a, m in pr]}, sys.stdout)
@@ -141,7 +213,7 @@ def main():
     viol, cases = [], 0
     with ThreadPoolExecutor(max_workers=8) as ex:
         for (sd, ug), pr in zip(seeds, ex.map(lambda x: check_tree(*x), seeds)):
-            cases += 7
+            cases += 8
             for a, m in pr:
                 viol.append({"what": f"arguments {a} (tree seed {sd}, gitignore={ug}): {m}",
                              "task": {"op": "one", "seed": sd, "use_git": ug}})
